@@ -126,7 +126,7 @@ pub enum Ev {
     SendS { node: usize, port: usize, id: u32, val: i64 },
     SendE { node: usize, port: usize, id: u32 },
     QryS { node: usize, port: usize, id: u32, val: i64 },
-    QryE { node: usize, port: usize, id: u32, replies: Vec<(usize, i64)> },
+    QryE { node: usize, port: usize, id: u32, replies: Vec<(usize, i64)>, partial: bool },
     /// A scheduling request: `at` is the absolute deadline (offset) the
     /// request designates given the time `now` read by the requester right
     /// before the call. `target` is the node whose input is targeted, or
@@ -384,6 +384,9 @@ pub struct CustomPayload(pub u32);
 pub enum Op {
     Send { port: usize, tag: u16, val: Val },
     Query { port: usize, tag: u16, val: Val },
+    /// Query, but only the first `take` replies are pulled from the reply
+    /// iterator before it is dropped.
+    QueryTake { port: usize, tag: u16, val: Val, take: usize },
     /// Schedule an event on this model's own input.
     Sched { kind: SKind, when: When, tag: u16, val: Val, slot: usize },
     /// Cancel (consuming the key stored in the shared slot).
@@ -663,11 +666,28 @@ impl Node {
                         .send(Msg::new(&w, id, tag, v))
                         .await
                         .map(|r| {
-                            assert_eq!(r.id, id, "reply matched to the wrong query");
-                            (r.from, r.val)
+                            // A reply computed for another query is reported
+                            // with a sentinel value (the oracle flags it).
+                            (r.from, if r.id == id { r.val } else { i64::MIN + r.id as i64 })
                         })
                         .collect();
-                    w.log(Ev::QryE { node, port, id, replies });
+                    w.log(Ev::QryE { node, port, id, replies, partial: false });
+                }
+                Op::QueryTake { port, tag, val, take } => {
+                    let id = w.fresh_id();
+                    let v = eval(val, in_val);
+                    w.log(Ev::QryS { node, port, id, val: v });
+                    let replies: Vec<(usize, i64)> = self.reqs[port]
+                        .send(Msg::new(&w, id, tag, v))
+                        .await
+                        .take(take)
+                        .map(|r| {
+                            // A reply computed for another query is reported
+                            // with a sentinel value (the oracle flags it).
+                            (r.from, if r.id == id { r.val } else { i64::MIN + r.id as i64 })
+                        })
+                        .collect();
+                    w.log(Ev::QryE { node, port, id, replies, partial: true });
                 }
                 Op::Sched { kind, when, tag, val, slot } => {
                     let id = w.fresh_id();
@@ -1401,8 +1421,7 @@ fn exec_cmd_inner(b: &mut Built, cmd: &Cmd) -> Res {
             w.log(Ev::QryS { node: usize::MAX, port: *node, id, val: *val });
             match simu.process_query(Node::on_query, Msg::new(&w, id, *tag, *val), &b.addrs[*node]) {
                 Ok(r) => {
-                    assert_eq!(r.id, id);
-                    Res::Replies(vec![(r.from, r.val)])
+                    Res::Replies(vec![(r.from, if r.id == id { r.val } else { i64::MIN + r.id as i64 })])
                 }
                 Err(e) => Res::Err(conv_err(e)),
             }
@@ -1512,10 +1531,7 @@ fn exec_cmd_inner(b: &mut Built, cmd: &Cmd) -> Res {
             match simu.process(action) {
                 Ok(()) => match rx.take() {
                     Some(it) => Res::Replies(
-                        it.map(|r| {
-                            assert_eq!(r.id, id);
-                            (r.from, r.val)
-                        })
+                        it.map(|r| (r.from, if r.id == id { r.val } else { i64::MIN + r.id as i64 }))
                         .collect(),
                     ),
                     None => Res::Err(E::BadQuery),
